@@ -2131,7 +2131,7 @@ class EdgeQLSourceGenerator(codegen.SourceGenerator):
 
     def visit_IndexCode(self, node: qlast.IndexCode) -> None:
         self._write_keywords('USING', node.language)
-        self.write(edgeql_quote.dollar_quote_literal(node.code))
+        self.write(_code_literal(node.code))
 
     def visit_CreateConcreteIndex(
         self, node: qlast.CreateConcreteIndex
@@ -2220,11 +2220,7 @@ class EdgeQLSourceGenerator(codegen.SourceGenerator):
             elif node.code.code:
                 from_clause = f'USING {node.code.language} '
                 self._write_keywords(from_clause)
-                self.write(
-                    edgeql_quote.dollar_quote_literal(
-                        node.code.code),
-                    ';'
-                )
+                self.write(_code_literal(node.code.code), ';')
 
             self._block_ws(-1)
             if node.commands:
